@@ -64,6 +64,11 @@ def gen_notnew(rng, base):
     nodes = [(p, n) for p, n in emit.walk(ov) if n['t'] in ('map', 'seq')]
     p, n = rng.choice(nodes[:3] if rng.random() < 0.6 else nodes)
     n['new'] = False
+    if rng.random() < 0.25 and n.get('prio') is None:
+        # the same node also carries a priority (both can only be written as one metadata tag): the ban on new paths still reaches
+        # everything below it
+        n['prio'] = rng.choice([1, 1, -1])
+        n['mdsyn'] = rng.choice(['hex', 'brace'])
     for q, m in nodes:
         if len(q) > len(p) and q[:len(p)] == p and rng.random() < 0.2:
             m['new'] = True
